@@ -71,9 +71,11 @@ uint8  g_ov;
 #ifndef NMAX
 #define NMAX 8
 #endif
-#ifdef H4V_CEX
+#if defined(H4V_CEX) || defined(H4V_NATIVE)
+/* counterexample mode enumerates buffer contents: keep the buffers small; the native replay uses
+   the same caps so that the named buffer bytes of a trace land at the same place */
 #undef STRMAX
-#define STRMAX 16 /* counterexample mode enumerates buffer contents: keep the buffers small */
+#define STRMAX 16
 #undef NMAX
 #define NMAX 3
 #endif
@@ -186,5 +188,25 @@ uint8  g_ov;
     H4V_COVER(r == SUCCEED && !in_place && source_stride == 0 && dest_stride == 0, #FN " one, contiguous");  \
     H4V_COVER(r == SUCCEED && in_place && source_stride == 1 && dest_stride == 7, #FN " one, odd strides");  \
     H4V_CANARY(#FN " one end")
+
+/* DFKnb?b, fast path in place (strides 0/0 or W/W, source == dest): nothing to do, for EVERY
+   num_elm (no loop and no memcpy is reached; the buffer has exactly the spanned size). */
+#define DFK_NB_INPLACE_HARNESS(FN, W)                                                                \
+    H4V_ND(uint32, num_elm);                                                                         \
+    H4V_ND(int, explicit_stride);                                                                    \
+    uint32 source_stride = explicit_stride ? (W) : 0, dest_stride = source_stride;                   \
+    size_t sbytes        = num_elm == 0 ? 1 : (size_t)(W) * num_elm;                                 \
+    H4V_ND_BUF(uint8, src, sbytes, 32);                                                              \
+    H4V_HAVOC(uint32, g_k);                                                                          \
+    H4V_HAVOC(uint32, g_o);                                                                          \
+    if (num_elm >= 1) {                                                                              \
+        H4V_ASSUME(g_k < num_elm && g_o < sbytes);                                                   \
+        SNAPSHOT_##W(src, (size_t)(W) * g_k);                                                        \
+        g_ov = src[g_o];                                                                             \
+    }                                                                                                \
+    int r = FN(src, src, num_elm, source_stride, dest_stride);                                       \
+    H4V_COVER(r == SUCCEED && num_elm > 1000000 && explicit_stride, #FN " in place, many elements"); \
+    H4V_COVER(r == SUCCEED && !explicit_stride, #FN " in place, 0/0");                               \
+    H4V_CANARY(#FN " in-place end")
 
 #endif
